@@ -323,6 +323,36 @@ func genC11(c *Ctx) {
 						fmtCase("fmt-small-s", append(be(r, 32), be(new(big.Int).Add(s2, cv.n), 32)...))
 					}
 				}
+				// call history through ONE signature buffer and ONE message buffer the caller re-uses (a key object that
+				// remembers its last accepted (signature, digest) by reference would answer from the altered buffers):
+				// accepted, altered in place, restored, message altered in place - always the same key object
+				{
+					fresh := ecSk(cv, d).PublicKey() // never used before: the buffer call is its first verification
+					sigBuf := append([]byte{}, sig...)
+					msgBuf := append([]byte{}, msg...)
+					verify("inplace/first-valid", fresh, hs.h, msgBuf, sigBuf)
+					sigBuf[5] ^= 0x10
+					verify("inplace/sig-bit-flipped", fresh, hs.h, msgBuf, sigBuf)
+					copy(sigBuf, sig)
+					verify("inplace/restored", fresh, hs.h, msgBuf, sigBuf)
+					copy(sigBuf, append(append([]byte{}, sig[32:]...), sig[:32]...))
+					verify("inplace/rs-swapped", fresh, hs.h, msgBuf, sigBuf)
+					copy(sigBuf, sig)
+					verify("inplace/restored", fresh, hs.h, msgBuf, sigBuf)
+					for i := range sigBuf {
+						sigBuf[i] = 0
+					}
+					verify("inplace/zeroed", fresh, hs.h, msgBuf, sigBuf)
+					copy(sigBuf, sig)
+					if len(msgBuf) > 0 {
+						verify("inplace/restored", fresh, hs.h, msgBuf, sigBuf)
+						msgBuf[0] ^= 1
+						verify("inplace/message-altered", fresh, hs.h, msgBuf, sigBuf)
+						msgBuf[0] ^= 1
+					}
+					copy(sigBuf, twin)
+					verify("inplace/twin", fresh, hs.h, msgBuf, sigBuf)
+				}
 				// same key bytes on the other curve would not even decode in general; use the other curve's own key
 				_ = other
 			}
